@@ -319,8 +319,14 @@ class Envelope:
         outcomes = {}
         reshape_shape = []
         if self.state is None:
-            for s in [self.polarization, self.fock]:
-                out = s.measure()
+            # Not combined: each requested member is measured where it is stored
+            members = [self.polarization, self.fock]
+            if separate_measurement and len(states) == 1:
+                members = [m for m in members if m is states[0]]
+            for s in members:
+                if s.measured or any(s is k for k in outcomes):
+                    continue
+                out = s.measure(separate_measurement=True, destructive=destructive)
                 for k, v in out.items():
                     outcomes[k] = v
         else:
